@@ -125,10 +125,12 @@ def EqvLists : List α → List α → Prop
   | a :: as, b :: bs => cmp a b = .eq ∧ EqvLists as bs
   | _, _ => False
 
-/-- `r` is a stable sort of `l`: ascending, and for every element the subsequence of the elements
-    equivalent to it is the same as in `l` (same members, same relative order) -/
+/-- `r` is a stable sort of `l`: an ascending permutation in which, for every element, the
+    subsequence of the elements equivalent to it is the same as in `l` (same relative order).
+    This is the contract of `sort.SliceStable`. -/
 def IsStableSortOf (l r : List α) : Prop :=
-  Ascending cmp r ∧ ∀ x, r.filter (fun y => cmp x y == .eq) = l.filter (fun y => cmp x y == .eq)
+  r.Perm l ∧ Ascending cmp r ∧
+  ∀ x ∈ l, r.filter (fun y => cmp x y == .eq) = l.filter (fun y => cmp x y == .eq)
 
 end Sorting
 
